@@ -65,7 +65,7 @@ def number_node(src, node):
     return seg, float(val)
 
 
-def parse_rules(path):
+def parse_rules(path, lenient=False):
     src = open(path).read()
     tree = ast.parse(src)
     fams, lists = {}, {}
@@ -104,6 +104,8 @@ def parse_rules(path):
                 elif len(cur.orelse) == 1 and isinstance(cur.orelse[0], ast.Assert) and \
                         isinstance(cur.orelse[0].test, ast.Constant) and cur.orelse[0].test.value is False:
                     cur = None  # final `else: assert False` = unknown key is rejected
+                elif lenient:
+                    cur = None  # (search only) an unknown fall-back branch: the tabulated branches are still read
                 else:
                     raise TranslationError('%s: else branch is neither an elif nor `assert False`' % node.name)
             fams[node.name] = entries
